@@ -186,14 +186,14 @@ def shared_delay_specs():
 
 
 def run(ctx):
-    specs = FAM.single_reaction_specs(ctx.tier) + FAM.rule_specs(ctx.tier) + FAM.multi_specs(ctx.tier) + shared_delay_specs()
+    specs = FAM.single_reaction_specs(ctx.tier) + FAM.rule_specs(ctx.tier) + FAM.multi_specs(ctx.tier) + shared_delay_specs() + FAM.big_specs(ctx.tier)
     items = [(s, st) for s in specs for st in (False, True)]
     pmap(check, items, ctx, nshards=256)
     ctx.bounds = dict(models=len(specs), round_trips=len(items))
     ctx.rule = ('E2: the model family of C14 plus delays (fixed / Gaussian / Gamma x numeric / named parameters x delayed reactant and product '
                 'lists of length 0..2), every rule set of <= 2 rules from {additive, assignment to species, assignment to parameter} x '
                 '{repeated, start, dt, "0.5", 0.5, 0, 0.0}, models whose delayed reactions were created with one re-used delay-parameter dictionary, and ordered triples from a 7-reaction menu over species whose sort order differs from '
-                'their declaration order; each written (deterministic and stochastic export) and read back by the real code. Compared: species '
+                'their declaration order, and rotations of a 16-reaction menu (6..16 reactions, every propensity and delay type, 14 named parameters, up to 4 rules) over 8 species; each written (deterministic and stochastic export) and read back by the real code. Compared: species '
                 'and values, parameter values, both stoichiometric matrices aligned by name, every rate in deterministic / stochastic / volume '
                 '/ stochastic-volume form at 6 states (H2), delay class and the delay drawn under one scripted stream, rule behaviour through '
                 'the interface at t in {0, 0.5, 0.75} with and without rule_step, and that writing twice gives the same text up to the model id. '
